@@ -20,6 +20,12 @@ Theorem C06_runtime_encode_eq_le : forall t v,
 Proof. exact c_encode_be_eq_le. Qed.
 Print Assumptions C06_runtime_encode_eq_le.
 
+Theorem C06_runtime_decode : forall t v,
+  c_schema t -> has_ty (norm t) v = true ->
+  c_decode_ty BE BE t (wire t v) = COk (store BE (norm t) v).
+Proof. exact c_decode_be. Qed.
+Print Assumptions C06_runtime_decode.
+
 (* the word fast paths and the array batch path are compiled out of the BE build
    (both facts are read off the TRANSLATED source, BPGen.GenC) *)
 Theorem C06_fast_paths_off : fast_paths BE = false /\ forall a b c, batch_pred BE a b c = false.
@@ -36,6 +42,7 @@ Definition ex_v : val :=
 Example C06_nonvacuous :
   c_schema ex_t /\ has_ty (norm ex_t) ex_v = true /\
   c_encode_ty BE BE ex_t (store BE (norm ex_t) ex_v) = COk (wire ex_t ex_v) /\
+  c_decode_ty BE BE ex_t (wire ex_t ex_v) = COk (store BE (norm ex_t) ex_v) /\
   store BE (norm ex_t) ex_v <> store LE (norm ex_t) ex_v /\
   c_encode_ty BE LE ex_t (store LE (norm ex_t) ex_v) <> COk (wire ex_t ex_v).
 Proof. vm_compute. repeat split; try reflexivity; intros H; discriminate H. Qed.
